@@ -11,9 +11,9 @@ def main():
     ok, out = ctx.lake([], timeout=7200)
     if not ok:
         # A failing property module on the current tree is reported by its check; the driver must exist.
-        ok2, _ = ctx.lake(["avodriver"])
-        print("setup: full lake build failed; driver build", "ok" if ok2 else "FAILED")
-        return 0 if ok2 else 1
+        print("setup: full lake build failed (a check will report which obligation is broken):")
+        print(out[-3000:])
+        return 0
     print("setup: ok")
     return 0
 
